@@ -23,7 +23,9 @@ import (
 	"github.com/openGemini/openGemini/lib/util/lifted/vm/protoparser/influx"
 )
 
-func newProcessor(inSchema, outSchema record.Schemas, exprOpt []hybridqp.ExprOptions) (CoProcessor, bool, bool) {
+// ascending is the time order in which the rows of a series arrive. first/last are computed by
+// position (first row / last row of a window), so for a descending scan they swap their roles.
+func newProcessor(inSchema, outSchema record.Schemas, exprOpt []hybridqp.ExprOptions, ascending bool) (CoProcessor, bool, bool) {
 	var (
 		initColMata bool
 		callCount   int
@@ -59,10 +61,18 @@ func newProcessor(inSchema, outSchema record.Schemas, exprOpt []hybridqp.ExprOpt
 			case "sum":
 				coProcessor.AppendRoutine(newSumRoutineImpl(inSchema, outSchema, exprOpt[i], auxProcessors))
 			case "first":
-				coProcessor.AppendRoutine(newFirstRoutineImpl(inSchema, outSchema, exprOpt[i], auxProcessors))
+				if ascending {
+					coProcessor.AppendRoutine(newFirstRoutineImpl(inSchema, outSchema, exprOpt[i], auxProcessors))
+				} else {
+					coProcessor.AppendRoutine(newLastRoutineImpl(inSchema, outSchema, exprOpt[i], auxProcessors))
+				}
 				initColMata = true
 			case "last":
-				coProcessor.AppendRoutine(newLastRoutineImpl(inSchema, outSchema, exprOpt[i], auxProcessors))
+				if ascending {
+					coProcessor.AppendRoutine(newLastRoutineImpl(inSchema, outSchema, exprOpt[i], auxProcessors))
+				} else {
+					coProcessor.AppendRoutine(newFirstRoutineImpl(inSchema, outSchema, exprOpt[i], auxProcessors))
+				}
 				initColMata = true
 			case "min":
 				coProcessor.AppendRoutine(newMinRoutineImpl(inSchema, outSchema, exprOpt[i], auxProcessors))
